@@ -1047,7 +1047,7 @@ func main() {
 		run.Add("cases", w.cases)
 		run.Add("distinct_nontrivial", w.nontrivial)
 		run.Add("cases_child_inherits_gas", w.inherit)
-		run.Add("cases_need_above_5000", w.needMore)
+		run.Add("cases_out_of_gas_at_base_limit", w.needMore)
 		run.Add("failed_steps_leaving_unpaid_push", w.unpaid)
 		run.Add("verify_crosschecks", w.verified)
 		run.Add("runs_that_wrote_into_their_own_program_or_arguments", w.damaged)
@@ -1079,7 +1079,7 @@ func main() {
 	run.Set("max_program_symbols", maxLen)
 	run.Set("child_programs", len(preds))
 	run.Set("units", len(units))
-	run.Set("rule", "F1: every program of <= max_program_symbols symbols over the alphabet (one opcode per distinct op implementation; JUMP/JUMPIF with every target 0..len+1) x initial stacks x gas limits; F2: CHECKPREDICATE (alone, followed by a long push, thorough: preceded/followed by every symbol) over every child program of <= 2 symbols x child limits {inherit,1,need-1,need,need+1,2000} x 9 lower-stack configurations incl. grandchild triples; F3: push^a refund^b sequences and loops. A case is a distinct (program, initial stack); each is run under limit 5000 with the step monitor, then under need-1, need, need+1 and the listed limits (0..40 sweep where stated, MaxGasAmount). evaluations = VM runs; distinct_nontrivial = cases whose base run completed >= 2 instructions.")
+	run.Set("rule", "F1: every program of <= max_program_symbols symbols over the 72-symbol alphabet (one opcode per distinct op implementation; JUMP/JUMPIF with every byte target 0..len+1) x initial stacks x gas limits: <=2 symbols on every stack of 0-3 items over {'',01,32 bytes} (thorough: plus 02; 85 stacks) under every limit 0..40, need-1, need, need+1, 5000 and MaxGasAmount; 3 symbols on 6 stacks (thorough: 40 stacks plus a 0..40 sweep on 6) under need-1, need, need+1, 0, 1, 40 (thorough: MaxGasAmount); (thorough) 4 symbols on 4 stacks under need-1, need. F2: CHECKPREDICATE (alone, followed by an 80-byte push, thorough: preceded/followed by every symbol) over every child program of <= 2 symbols x child limits {inherit,1,need-1,need,need+1,2000} x 9 lower-stack configurations incl. grandchild triples. F3: push^a refund^b sequences (a,b <= 3, thorough 4), the same closed into loops, and a loop that rebuilds a CHECKPREDICATE triple every iteration. A case is a distinct (program, initial stack); its base run is monitored instruction by instruction under limit 5000 (programs of >= 3 symbols: 600 first, 5000 unless the run is a loop), then need is located and the listed limits are run. evaluations = VM runs; distinct_nontrivial = cases whose base run completed >= 2 instructions.")
 	run.Assume("the step driver (hooks/protocol/vm/zz_verif_c07.go) replicates Verify's preamble; cross-checked against vm.Verify (gas left and error class) on verify_crosschecks cases, at least once per program")
 	run.Assume("child VMs are not stepped individually: their gas accounting is observed through the parent's CHECKPREDICATE step (potential of the parent) and by running every child program as a top-level program")
 	run.Assume("a top-level CHECKPREDICATE with limit operand 0 hands the child all remaining gas, so behaviour legitimately depends on the limit; for those cases only the per-step and end-of-run bounds are asserted")
